@@ -153,6 +153,7 @@ theorem guess_cond (fs : Bytes → FsEnt) (a0 : Bytes) :
     | absent => simp
     | denied => simp
     | dir => simp
+    | unstatable en cls => simp
     | file b =>
       cases b
       · simp [List.isPrefixOf]
@@ -275,6 +276,11 @@ theorem exeOnce_sound (w : World) (r : Res Bytes) (rem : Bool)
         subst h1; subst h2
         simp [exe, hp, remembered]
       | fileNotFound =>
+        simp only [hl, Option.some.injEq, Prod.mk.injEq] at h
+        obtain ⟨h1, h2⟩ := h
+        subst h1; subst h2
+        simp [exe, hp, remembered]
+      | osError en =>
         simp only [hl, Option.some.injEq, Prod.mk.injEq] at h
         obtain ⟨h1, h2⟩ := h
         subst h1; subst h2
